@@ -95,6 +95,9 @@ UnfaithfulIds == IF ~GenOk THEN {}
 PathFailures == IF ~GenOk THEN {} ELSE {id \in Ids(Reg) : Run.paths[id + 1].res # "ok"}
 C02_Failed == IF ~GenOk THEN {} ELSE (IF Run.gen.parse_ok THEN {} ELSE {"Parses"}) \cup RustWfFailed(S, Run.gen.module)
 HasFamily == \E p \in UserPaths(Reg) : Cardinality(IdsOfPath(Reg, p)) > 1
+\* coincidence-freedom: evaluated on the source program by the case generator; a registry without source program (real chain
+\* metadata, family G6) is certified only if every user path has exactly one id (DESIGN.md 3.4)
+CFdom == O.input.cf \/ (O.input.fam = "G6" /\ ~HasFamily)
 
 \* ids the model keeps on an occupied path although their own candidate item differs from the kept one
 BadlyKept == LET mf == ModelFinal IN
@@ -186,9 +189,9 @@ C08_BadItems == IF ~GenOk THEN {}
 
 Failed ==
   \* C01: well-formed, coincidence-free registries (cf is evaluated on the source program by the case generator)
-  (IF O.input.cf /\ UnfaithfulIds # {} THEN {"C01.Faithful"} ELSE {})
-  \cup (IF O.input.cf /\ PathFailures # {} THEN {"C01.PathResolves"} ELSE {})
-  \cup (IF O.input.cf /\ GenOk /\ ~Run.gen.parse_ok THEN {"C01.Parses"} ELSE {})
+  (IF CFdom /\ UnfaithfulIds # {} THEN {"C01.Faithful"} ELSE {})
+  \cup (IF CFdom /\ PathFailures # {} THEN {"C01.PathResolves"} ELSE {})
+  \cup (IF CFdom /\ GenOk /\ ~Run.gen.parse_ok THEN {"C01.Parses"} ELSE {})
   \* C02: every well-formed registry
   \cup {"C02." \o x : x \in C02_Failed}
   \* C03: same-path families, not restricted to coincidence-free ones
@@ -215,7 +218,7 @@ Known ==
 Verdict == Terminal =>
   PrintT("V " \o ToJson([case |-> O.case, failed |-> Failed, drift |-> Drift, rejected |-> rejected, at |-> l,
                          gen |-> Run.gen.res, model |-> ModelFinal.res, unfaithful |-> UnfaithfulIds,
-                         family |-> HasFamily, cf |-> O.input.cf, known |-> Known, c05 |-> C05_Domain, ncomp |-> Len(Run.composites), nsubs |-> Len(S.subs), ncalls |-> Len(S.derive_calls), cas |-> S.has_compact_as,
+                         family |-> HasFamily, cf |-> CFdom, known |-> Known, c05 |-> C05_Domain, ncomp |-> Len(Run.composites), nsubs |-> Len(S.subs), ncalls |-> Len(S.derive_calls), cas |-> S.has_compact_as,
                          c05bad |-> C05_BadDefs, c18bad |-> C18_Bad,
                          outs |-> {Evs[i].out : i \in {j \in DOMAIN Evs : Evs[j].ev = "visit"}}]))
 =================================================================================
